@@ -38,7 +38,7 @@ ASSUMPTIONS = [
 REQUIRED = {"expand.count_and_order": {"quick": 1500, "thorough": 100000}, "expand.row_scenario": {"quick": 3000, "thorough": 200000},
             "expand.template_unchanged": {"quick": 1500, "thorough": 100000}, "expand.rows_independent": {"quick": 800, "thorough": 50000},
             "modify.rebuilt": {"quick": 800, "thorough": 50000}, "builder.count": {"quick": 1500, "thorough": 100000}}
-REQUIRED_SEEN = {"entry_point": ["parse_scenario", "parse_feature"], "row_value_class": ["all_cells_dashes"], "special_placeholder_in": ["step_text"], "first_access_to_the_expansion": ["attribute", "iteration"], "background_steps_shape": ["mixed", "all_with_placeholder", "none_with_placeholder", "placeholder_step_with_doc_string"], "outline_place": ["in_rule", "in_feature"], "examples_shape": ["section_without_table_before_rows"], "tag_placeholder_column": ["name_with_punctuation"], "schema": 9, "schema_given_by": ["configuration_parameter", "outline_attribute"], "modification": ["add_row", "add_row_object", "add_column", "remove_column"]}
+REQUIRED_SEEN = {"entry_point": ["parse_scenario", "parse_feature", "model_visitor_with_modifying_callback"], "row_value_class": ["all_cells_dashes"], "modification_history": ["remove_column_then_add_column"], "added_column": ["one_the_template_refers_to"], "special_placeholder_in": ["step_text"], "first_access_to_the_expansion": ["attribute", "iteration"], "background_steps_shape": ["mixed", "all_with_placeholder", "none_with_placeholder", "placeholder_step_with_doc_string"], "outline_place": ["in_rule", "in_feature"], "examples_shape": ["section_without_table_before_rows"], "tag_placeholder_column": ["name_with_punctuation"], "schema": 9, "schema_given_by": ["configuration_parameter", "outline_attribute"], "modification": ["add_row", "add_row_object", "add_column", "remove_column"]}
 NSHARDS = {"quick": 16, "thorough": 16}
 
 
@@ -386,10 +386,16 @@ def one_case(mon, rng, sample=False):
     abs2 = copy.deepcopy(outline_abs)
     tables = [(ei, e) for ei, e in enumerate(o.examples) if e.table is not None]
     if tables:
-        for _ in range(rng.randint(1, 2)):
+        for _ in range(rng.randint(1, 3)):
             ei, e = rng.choice(tables)
             ea = abs2["examples"][ei]
             kind = rng.choice(["add_row", "add_column", "remove_column"])
+            if mods and mods[-1] == "remove_column" and rng.random() < 0.6:
+                # (histories: a column goes, another one comes -- on the same table)
+                kind, (ei, e) = "add_column", last_table
+                ea = abs2["examples"][ei]
+                mon.seen("modification_history", "remove_column_then_add_column")
+            last_table = (ei, e)
             if kind == "add_row":
                 cells = [rng.choice(TAGVALS) for _ in ea["header"]]
                 if rng.random() < 0.5:
@@ -402,6 +408,10 @@ def one_case(mon, rng, sample=False):
                 ea["rows"].append(list(cells))
             elif kind == "add_column":
                 name = "new%d" % len(mods)
+                if "<unknown col>" in repr(outline_abs["steps"]) + outline_abs["name"] and "unknown col" not in ea["header"] and rng.random() < 0.7:
+                    # the template refers to a column that only exists from now on: its cells fill the placeholder in every row
+                    name = "unknown col"
+                    mon.seen("added_column", "one_the_template_refers_to")
                 vals = [rng.choice(VALUES) for _ in ea["rows"]]
                 e.table.add_column(name, values=list(vals))
                 ea["header"] = ea["header"] + [name]
@@ -446,6 +456,39 @@ def one_case(mon, rng, sample=False):
                                     want_row=want2[fd] if fd is not None else None))
             except Exception as ex:
                 mon.check("modify.rebuilt", False, lambda: W(modifications=mods, error=repr(ex)))
+    # ---- a tree walk with behave.model_visitor.ModelVisitor whose on_scenario_outline() callback extends an Examples table:
+    #      the scenarios visited below that outline are the rows of the table as it is THEN
+    if not via_fragment and rng.random() < 0.35:
+        from behave.model_visitor import ModelVisitor, IModelVisitor
+        f3 = parse_feature(text, filename="o.feature")
+        o3 = f3.run_items[idx].run_items[0] if in_rule else f3.run_items[idx]
+        if schema is not None:
+            o3.annotation_schema = schema
+        with_rows = [ei for ei, e in enumerate(o3.examples) if e.table is not None and e.table.rows]
+        if with_rows:
+            ei3 = rng.choice(with_rows)
+            abs3 = copy.deepcopy(outline_abs)
+            cells3 = list(abs3["examples"][ei3]["rows"][0])
+            abs3["examples"][ei3]["rows"].append(list(cells3))
+            visited = []
+
+            class Walker(IModelVisitor):
+                def on_scenario_outline(self, outline):
+                    if outline is o3:
+                        outline.examples[ei3].table.add_row(list(cells3))
+
+                def on_scenario(self, scenario):
+                    if scenario.parent is o3:
+                        visited.append(scenario)
+            try:
+                ModelVisitor(Walker())(f3)
+                got3 = [g[:3] for g in observed_rows(visited)]
+                want3 = [w[:3] for w in expected_rows(abs3, schema, {})]
+                mon.seen("entry_point", "model_visitor_with_modifying_callback")
+                mon.check("modify.rebuilt", got3 == want3,
+                          lambda: W(entry="ModelVisitor; on_scenario_outline() added a row", got=[g[0] for g in got3], want=[w[0] for w in want3]))
+            except Exception as ex:
+                mon.check("modify.rebuilt", False, lambda: W(entry="ModelVisitor", error=repr(ex)))
     if sample:
         mon.sample({"text": text, "schema": schema, "expected_scenarios": [w[0] for w in want], "expected_tags": [w[1] for w in want]})
 
